@@ -134,6 +134,88 @@ def differential(rng, n, tier="quick", profile="debug", batch=4000):
     return stats
 
 
+def differential_files(rng, files, profile="debug"):
+    """E57Reader::new on arbitrary FILE bytes vs Model/ReaderFull.reader_new (file layer, UTF-8 check, XML parser
+    model, extractors; float parsing from the implementation's oracle table).
+    files: list of bytes.  returns dict(cases, classes, unsupported, disagreements=[(file, impl, model)])"""
+    impl = core.ensure_harness(profile)
+    outs = core.run_cases(impl, ["RNEW " + f.hex() for f in files])
+    mlines, parts = [], []
+    for f, o in zip(files, outs):
+        p = o.split(" ;; ")
+        if len(p) != 2:
+            parts.append((o, "")); mlines.append("ECHO bad")
+            continue
+        parts.append((p[0], p[1]))
+        mlines.append("RNEWM " + p[1] + " ;; " + f.hex())
+    mouts = core.run_cases(core.DRIVER, mlines)
+    st = dict(cases=len(files), classes={}, unsupported=0, disagreements=[])
+    for f, (r, _), m in zip(files, parts, mouts):
+        c = result_class(r)
+        st["classes"][c] = st["classes"].get(c, 0) + 1
+        if m == "UNSUPPORTED":
+            st["unsupported"] += 1
+            if r == "PANIC":
+                st["disagreements"].append((f, r, m))
+        elif r != m:
+            st["disagreements"].append((f, r, m))
+    return st
+
+
+def replace_xml(file_bytes, fn):
+    """file written by the real writer (XML section last) -> the same file with fn(xml) as its XML section, resealed"""
+    from vlib import crc
+    log = bytearray(crc.strip(file_bytes))
+    xoff = int.from_bytes(log[24:32], "little"); xlen = int.from_bytes(log[32:40], "little")
+    lo = xoff - 4 * (xoff // 1024)
+    new = fn(bytes(log[lo:lo + xlen]))
+    log = log[:lo] + new
+    log[32:40] = len(new).to_bytes(8, "little")
+    npages = (len(log) + 1019) // 1020
+    log[16:24] = (npages * 1024).to_bytes(8, "little")
+    return crc.paginate(bytes(log))
+
+
+BAD_NUMBERS = [b"NaN", b"inf", b"-inf", b"1e999", b"-1e999", b"", b"-1", b"-0", b"18446744073709551616", b"9223372036854775808",
+               b"-9223372036854775809", b"4294967296", b"1e-400", b"0x10", b" 5", b"99999999999999999999999999", b"+5", b"1.5"]
+
+
+def mutate_xml_text(rng, xml):
+    """XML-level mutations of a writer-produced XML text (bytes)"""
+    import re
+    k = rng.below(9)
+    if k == 0:      # a number in element text
+        ms = list(re.finditer(rb'(type="(?:Float|Integer|ScaledInteger)"[^>]*>)([^<]*)(<)', xml))
+        if ms:
+            m = rng.choice(ms); return xml[:m.start(2)] + rng.choice(BAD_NUMBERS) + xml[m.end(2):]
+    if k == 1:      # a number in an attribute
+        ms = list(re.finditer(rb'(minimum|maximum|scale|offset|fileOffset|recordCount|length)="([^"]*)"', xml))
+        if ms:
+            m = rng.choice(ms); return xml[:m.start(2)] + rng.choice(BAD_NUMBERS + [str(rng.below(5000)).encode(), str(2 ** 63 - 1).encode()]) + xml[m.end(2):]
+    if k == 2:      # swap a type attribute
+        ms = list(re.finditer(rb'type="([A-Za-z]*)"', xml))
+        if ms:
+            m = rng.choice(ms); return xml[:m.start(1)] + rng.choice([b"Float", b"Integer", b"String", b"Structure", b"Vector", b"ScaledInteger", b"CompressedVector", b"Blob", b""]) + xml[m.end(1):]
+    if k in (3, 4):  # duplicate / remove a one-line element
+        ms = list(re.finditer(rb'<([A-Za-z0-9:]+) [^<>]*?(?:/>|>[^<]*(?:<!\[CDATA\[.*?\]\]>)?[^<]*</\1>)\n', xml, re.S))
+        if ms:
+            m = rng.choice(ms)
+            return xml[:m.start()] + (m.group(0) * 2 if k == 3 else b"") + xml[m.end():]
+    if k == 5:
+        return re.sub(rb'recordCount="[0-9]*"', b'recordCount="' + rng.choice([b"18446744073709551615", b"0", b"9223372036854775807", str(rng.below(10 ** 6)).encode()]) + b'"', xml, count=1)
+    if k == 6:
+        ms = list(re.finditer(rb'fileOffset="([0-9]*)"', xml))
+        if ms:
+            m = rng.choice(ms); return xml[:m.start(1)] + str(rng.below(20000)).encode() + xml[m.end(1):]
+    if k == 7:      # precision / extra attribute
+        ms = list(re.finditer(rb'precision="single"', xml))
+        if ms:
+            m = rng.choice(ms); return xml[:m.start()] + rng.choice([b'precision="double"', b'precision="half"', b'']) + xml[m.end():]
+    # byte damage
+    i = rng.below(max(1, len(xml)))
+    return xml[:i] + bytes([rng.choice([0xff, 0x3c, 0x26, 0x00, 0x80])]) + xml[i + 1:]
+
+
 def run(rep, tier, rng, replay=None):
     rep.cov["trusted_base"] = core.TRUSTED_COMMON + [
         "roxmltree's tree is taken from the implementation side (dumped by the harness) and given to the model",
